@@ -9,6 +9,7 @@ Metamorphic checks on the implementation alone: chi x constant, opacity unit, wa
 Falsifier: the formula -0.4*chi(lambda)/chi(V) with exact linear interpolation in Python Fractions.
 """
 import bisect
+import copy
 import math
 import os
 import pickle
@@ -33,10 +34,12 @@ REQUIRED_BRANCHES = ['query_inside', 'query_outside_low', 'query_outside_high', 
                      'tab_micron', 'tab_nm', 'tab_m', 'tab_AA', 'tab_cm', 'tab_mm',
                      'query_micron', 'query_nm', 'query_m', 'query_AA', 'query_cm', 'query_mm',
                      'query_shape_0d', 'query_shape_1d', 'query_shape_2d', 'v_first_node', 'v_last_node',
-                     'chi_cm2_g', 'chi_m2_kg', 'chi_cm2_kg', 'chi_m2_g', 'via_direct', 'via_pickle', 'via_table', 'via_file',
+                     'chi_cm2_g', 'chi_m2_kg', 'chi_cm2_kg', 'chi_m2_g', 'via_direct', 'via_pickle', 'via_table', 'via_file', 'file_columns_1_0', 'file_columns_0_3', 'file_columns_2_1',
+                     'file_positional_call', 'file_keyword_call',
                      'rows_2', 'rows_200',
                      'hist_chi_scale', 'hist_chi_new', 'hist_wav_unit', 'hist_wav_new', 'hist_table', 'hist_pickle',
-                     'arr_f8', 'arr_f4', 'arr_i8', 'arr_be', 'arr_ro', 'hist_alias_from_table', 'hist_alias_to_table', 'hist_alias_pickle']
+                     'hist_dup_modify', 'dup_copy_copy_modified', 'dup_copy_original_modified', 'dup_deepcopy_copy_modified',
+                     'dup_deepcopy_original_modified', 'dup_pickle_copy_modified', 'dup_pickle_original_modified', 'arr_f8', 'arr_f4', 'arr_i8', 'arr_be', 'arr_ro', 'hist_alias_from_table', 'hist_alias_to_table', 'hist_alias_pickle']
 ASSUMPTIONS = ['IEEE rounding is not modelled: patterns compared within 1e-9 relative (exactly 0 outside the table)',
                'decision margin: a query (or V used as a query) that, converted exactly to the table unit, lies within 4 ulp of '
                'the first / last node sits on the jump between the tabulated end value and 0; the float unit conversion '
@@ -157,15 +160,22 @@ def gen_case(rng, directed=None):
     if via == 'file':
         ncols = rng.randint(2, 5)
         cols = rng.sample(range(ncols), 2)
-        case['file'] = dict(ncols=ncols, columns=cols, filler=[float('%.3g' % rng.uniform(-5, 5)) for _ in range(ncols)])
+        if directed.get('columns'):
+            cols = list(directed['columns'])
+            ncols = max(directed.get('ncols', 2), max(cols) + 1)
+        case['file'] = dict(ncols=ncols, columns=cols, positional=bool(rng.random() < 0.5), filler=[float('%.3g' % rng.uniform(-5, 5)) for _ in range(ncols)])
     return case
 
 
 HIST_OPS = ['chi_scale', 'chi_scale', 'chi_new', 'chi_new', 'wav_unit', 'wav_new', 'table', 'pickle',
-            'alias_from_table', 'alias_from_table', 'alias_to_table', 'alias_pickle']
+            'alias_from_table', 'alias_from_table', 'alias_to_table', 'alias_pickle', 'dup_modify', 'dup_modify', 'dup_modify']
 
 
 def gen_step(rng, op, n, tab_unit):
+    if op.startswith('dup_modify:'):
+        _, kind, target = op.split(':')
+        st = gen_step(rng, 'dup_modify', n, tab_unit)
+        return dict(st, kind=kind, target=target)
     if op == 'chi_scale':
         return dict(op=op, c=rng.choice([7.5, 0.1, 1e3, 2., 3e-4]))
     if op == 'chi_new':
@@ -179,6 +189,13 @@ def gen_step(rng, op, n, tab_unit):
         return dict(op=op, unit=rng.choice(list(UNIT_EXP)))
     if op == 'wav_new':
         return dict(op=op, f=rng.choice([0.5, 0.8, 0.25]))
+    if op == 'dup_modify':
+        c = nice(rng, 1., 1e4, 3)
+        chi = []
+        for _ in range(n):
+            c = min(max(c * 10 ** rng.uniform(-0.5, 0.7), 1e-2), 1e6)
+            chi.append(float('%.4g' % c))
+        return dict(op=op, kind=rng.choice(['copy', 'copy', 'deepcopy', 'pickle']), target=rng.choice(['copy', 'original']), chi=chi)
     if op.startswith('alias_'):
         return dict(op=op, c=rng.choice([7.5, 0.1, 3.]), unit=rng.choice([k for k in UNIT_EXP if k != tab_unit]))
     return dict(op=op)
@@ -186,14 +203,14 @@ def gen_step(rng, op, n, tab_unit):
 
 DIRECTED = [
     dict(rows=2, tab_unit='micron', chi_unit='cm2/g', via='direct', query_units=['micron', 'nm', 'm'],
-         history=['chi_scale', 'alias_from_table', 'chi_new'], arr='i8'),
+         history=['chi_scale', 'alias_from_table', 'dup_modify:copy:copy', 'chi_new'], arr='i8'),
     dict(rows=200, tab_unit='nm', chi_unit='m2/kg', via='pickle', query_units=['nm', 'micron'],
-         history=['chi_new', 'alias_to_table', 'wav_unit', 'chi_scale'], arr='be'),
+         history=['chi_new', 'dup_modify:copy:original', 'alias_to_table', 'wav_unit', 'chi_scale'], arr='be'),
     dict(rows=5, tab_unit='m', chi_unit='cm2/g', via='table', query_units=['m', 'micron'],
-         history=['wav_new', 'alias_pickle', 'chi_scale', 'table', 'alias_from_table'], arr='ro'),
+         history=['wav_new', 'dup_modify:deepcopy:copy', 'alias_pickle', 'chi_scale', 'table', 'alias_from_table'], arr='ro'),
     dict(rows=12, tab_unit='micron', chi_unit='m2/kg', via='file', query_units=['micron', 'm'],
-         history=['pickle', 'chi_scale', 'wav_new']),
-    dict(rows=200, tab_unit='m', chi_unit='m2/kg', via='file', query_units=['nm'], history=['chi_scale']),
+         history=['pickle', 'dup_modify:pickle:copy', 'chi_scale', 'dup_modify:deepcopy:original', 'wav_new']),
+    dict(rows=200, tab_unit='m', chi_unit='m2/kg', via='file', query_units=['nm'], history=['chi_scale', 'dup_modify:pickle:original']),
     dict(rows=2, tab_unit='nm', chi_unit='cm2/g', via='table', query_units=['nm', 'm'], history=['table', 'pickle']),
     dict(rows=8, tab_unit='nm', chi_unit='m2/kg', via='table', query_units=['nm', 'micron'], arr='f4',
          history=['table', 'chi_new', 'alias_from_table']),
@@ -202,6 +219,9 @@ DIRECTED = [
 ]
 
 
+# column selections of the text-file reader on files with 2..5 columns
+for _cols, _n in (((1, 0), 2), ((0, 3), 4), ((2, 1), 3), ((0, 3), 5), ((1, 0), 5), ((2, 1), 4), ((4, 2), 5), ((0, 1), 2)):
+    DIRECTED.append(dict(rows=6, via='file', columns=_cols, ncols=_n, history=['chi_scale']))
 # V = 0.55 micron as the first / last node of the table, in every wavelength unit; queries in another unit too
 for _k, _unit in enumerate(['micron', 'nm', 'AA', 'cm', 'm', 'mm']):
     _other = ['cm', 'micron', 'micron', 'micron', 'AA', 'nm'][_k]
@@ -246,6 +266,8 @@ def build(case, d, wav=None, chi=None, tab_unit=None, chi_unit=None, via=None):
                 row[fi['columns'][0]] = w
                 row[fi['columns'][1]] = c
                 fh.write(' '.join('%r' % float(v) for v in row) + '\n')
+        if fi.get('positional'):
+            return Extinction.from_file(path, tuple(fi['columns']), wu, cu)
         return Extinction.from_file(path, columns=tuple(fi['columns']), wav_unit=wu, chi_unit=cu)
     e = Extinction()
     kind = case.get('arr', 'f8') if not plain else 'f8'
@@ -425,7 +447,7 @@ def compare(e, wav, chi, tab_unit, queries, drv, branches, label, via, relaxed):
     return None, nontrivial
 
 
-def apply_step(e, step, wav, chi, tab_unit, chi_unit):
+def apply_step(e, step, wav, chi, tab_unit, chi_unit, extras=None):
     """one mutation of the SAME Extinction object (or a table / pickle round trip of it) through the public
     attributes; returns (object, wav, chi, tab_unit) now held, or None when the step does not apply"""
     from astropy import units as u
@@ -458,6 +480,25 @@ def apply_step(e, step, wav, chi, tab_unit, chi_unit):
         e = Extinction.from_table(e.to_table())
     elif op == 'pickle':
         e = pickle.loads(pickle.dumps(e))
+    elif op == 'dup_modify':
+        # a copy (copy.copy / copy.deepcopy / pickle round trip) and the original are independent objects: assigning
+        # another table to one of them must leave the other as it was
+        dup = {'copy': copy.copy, 'deepcopy': copy.deepcopy,
+               'pickle': lambda o: pickle.loads(pickle.dumps(o))}[step['kind']](e)
+        new = list(step['chi'])[:len(chi)]
+        if len(new) != len(chi):
+            return None
+        target = dup if step['target'] == 'copy' else e
+        target.chi = np.array(new, dtype=float) * U[chi_unit]
+        target.wav = np.array(wav, dtype=float) * U[tab_unit]        # the wav setter is exercised as well (same values)
+        if step['target'] == 'copy':
+            if extras is not None:
+                extras.append((dup, wav, new, tab_unit, 'the %s of the law, after another chi was assigned to it' % step['kind']))
+        else:
+            if extras is not None:
+                extras.append((dup, wav, chi, tab_unit, 'the %s taken before another chi was assigned to the original'
+                               % step['kind']))
+            chi = new
     elif op == 'alias_from_table':
         # law = from_table(t); then t is modified in place: the law must not change
         t = e.to_table()
@@ -486,7 +527,12 @@ def scribble_table(t, step, tab_unit):
 
 def run_case(case):
     d = tempfile.mkdtemp(prefix='c14_')
-    branches = {'arr_' + case.get('arr', 'f8'), 'tab_' + case['tab_unit'], 'chi_' + case['chi_unit'].replace('/', '_'), 'via_' + case['via'],
+    if case['via'] == 'file':
+        extra_b = {'file_columns_%d_%d' % tuple(case['file']['columns']),
+                   'file_positional_call' if case['file'].get('positional') else 'file_keyword_call'}
+    else:
+        extra_b = set()
+    branches = extra_b | {'arr_' + case.get('arr', 'f8'), 'tab_' + case['tab_unit'], 'chi_' + case['chi_unit'].replace('/', '_'), 'via_' + case['via'],
                 'rows_%d' % len(case['wav']) if len(case['wav']) in (2, 200) else 'rows_other'}
     try:
         drv = common.driver()
@@ -510,7 +556,8 @@ def run_case(case):
         for step in case.get('history', []):
             try:
                 with common.quiet():
-                    r = apply_step(e, step, wav, chi, tab_unit, case['chi_unit'])
+                    extras = []
+                    r = apply_step(e, step, wav, chi, tab_unit, case['chi_unit'], extras)
             except Exception as ex:
                 return CaseResult(False, violates=True, branches=sorted(branches),
                                   detail='after get_av, step %r raised %s: %s' % (step['op'], type(ex).__name__, ex))
@@ -523,6 +570,12 @@ def run_case(case):
                              'same object after get_av and then %s' % ' -> '.join(done), case['via'], relaxed)
             if bad is not None:
                 return bad
+            for obj, w2, c2, u2, label in extras:
+                branches.add('dup_%s_%s_modified' % (step['kind'], step['target']))
+                bad, _ = compare(obj, w2, c2, u2, case['queries'], drv, branches,
+                                 '%s (history %s)' % (label, ' -> '.join(done)), case['via'], relaxed)
+                if bad is not None:
+                    return bad
         if case.get('v_node'):
             branches.add('v_%s_node' % case['v_node'])
         sample = dict(rows=len(case['wav']), tab_unit=case['tab_unit'], chi_unit=case['chi_unit'], via=case['via'],
